@@ -39,7 +39,7 @@ impl T {
 
 /// Exercise a parsed name: everything must work, and the labels must equal
 /// the independent decompression at `pos` if the name starts there.
-fn use_name<O: AsRef<[u8]>>(t: &mut T, n: &ParsedName<O>, msg: &[u8]) {
+fn use_name<O: octseq::Octets>(t: &mut T, n: &ParsedName<O>, msg: &[u8]) {
     t.names += 1;
     if n.is_compressed() {
         t.ptr_names += 1;
@@ -86,6 +86,157 @@ fn use_name<O: AsRef<[u8]>>(t: &mut T, n: &ParsedName<O>, msg: &[u8]) {
     let d = format!("{}", n);
     let _ = write!(t.s, "n({},{});", fwd.len(), d.len());
     let _ = msg;
+    name_api(t, n, &fwd, &want);
+}
+
+/// The rest of ParsedName's public API, each result compared with what the
+/// independent label list says. "Whatever is returned as a name can itself
+/// be iterated, compared and displayed": that includes walking up the name.
+fn name_api<O: octseq::Octets>(t: &mut T, n: &ParsedName<O>, fwd: &[Vec<u8>], want: &[u8]) {
+    use domain::base::cmp::CanonicalOrd;
+    use domain::base::name::{FlattenInto, Name, ToLabelIter};
+    use std::hash::{Hash, Hasher};
+    let mut bad = |k: &str| t.errs.push(format!("name-api|{k}"));
+    // offsets of the suffixes in `want`
+    let mut offs = vec![0usize];
+    for l in fwd {
+        offs.push(offs.last().unwrap() + 1 + l.len());
+    }
+    offs.pop();
+    let lower: Vec<u8> = {
+        let mut v = Vec::new();
+        for l in fwd {
+            v.push(l.len() as u8);
+            v.extend(l.iter().map(|b| b.to_ascii_lowercase()));
+        }
+        v
+    };
+    if n.is_root() != (fwd.len() == 1) {
+        bad("is_root");
+    }
+    if n.label_count() != fwd.len() {
+        bad("label_count");
+    }
+    if n.first().as_slice() != fwd[0].as_slice() || !n.last().is_root() {
+        bad("first-or-last");
+    }
+    if let Some(s) = n.as_flat_slice() {
+        if s != want {
+            bad("as_flat_slice-differs-from-labels");
+        }
+    }
+    let flat: Name<Vec<u8>> = n.to_vec();
+    // suffix iteration
+    let sufs: Vec<Vec<u8>> = n.iter_suffixes().take(300).map(|s| s.to_vec().as_slice().to_vec()).collect();
+    if sufs.len() != fwd.len() || sufs.iter().zip(&offs).any(|(s, o)| s.as_slice() != &want[*o..]) {
+        bad("iter_suffixes-differs-from-labels");
+    }
+    for s in n.iter_suffixes().take(300) {
+        let _ = format!("{} {:?}", s, s);
+        if !n.ends_with(&s) || s.cmp(&s) != std::cmp::Ordering::Equal {
+            bad("suffix-not-usable");
+        }
+        let mut it = 0;
+        for _ in s.iter() {
+            it += 1;
+            if it > 300 {
+                bad("suffix-iteration-does-not-end");
+                break;
+            }
+        }
+    }
+    // walking up with parent()
+    let mut p = n.ref_octets();
+    let mut k = 0usize;
+    loop {
+        if p.to_vec().as_slice() != &want[offs[k.min(offs.len() - 1)]..] {
+            bad("parent-walk-differs-from-labels");
+            break;
+        }
+        let more = p.parent();
+        if more != (k + 1 < fwd.len()) {
+            bad("parent-return-value");
+            break;
+        }
+        if !more {
+            break;
+        }
+        k += 1;
+        if k > 300 {
+            bad("parent-walk-does-not-end");
+            break;
+        }
+    }
+    // walking up with split_first()
+    let mut p = n.ref_octets();
+    let mut k = 0usize;
+    loop {
+        let first = p.split_first().map(|r| r.as_slice().to_vec());
+        match first {
+            Some(f) => {
+                if k + 1 >= fwd.len() || f.len() != 1 + fwd[k].len() || f[1..] != fwd[k][..] {
+                    bad("split_first-label");
+                    break;
+                }
+                k += 1;
+                if p.to_vec().as_slice() != &want[offs[k]..] {
+                    bad("split_first-rest-differs-from-labels");
+                    break;
+                }
+            }
+            None => {
+                if k + 1 != fwd.len() {
+                    bad("split_first-stops-early");
+                }
+                break;
+            }
+        }
+        if k > 300 {
+            bad("split_first-walk-does-not-end");
+            break;
+        }
+    }
+    // prefix / suffix predicates, conversions, orders, hash
+    if !n.starts_with(&flat) || !n.ends_with(&flat) || !n.ends_with(&Name::root_ref()) {
+        bad("starts_with-or-ends_with-itself");
+    }
+    if n.iter_labels().count() != fwd.len() {
+        bad("iter_labels");
+    }
+    let canon: Name<Vec<u8>> = n.to_canonical_name();
+    if canon.as_slice() != lower.as_slice() {
+        bad("to_canonical_name");
+    }
+    let mut cc = Vec::new();
+    n.compose_canonical(&mut cc).unwrap();
+    if cc != lower {
+        bad("compose_canonical");
+    }
+    match n.ref_octets().try_flatten_into() {
+        Ok::<Name<Vec<u8>>, _>(f) => {
+            if f.as_slice() != want {
+                bad("flatten_into-differs-from-labels");
+            }
+        }
+        Err(_) => bad("flatten_into-failed"),
+    }
+    if n.to_cow().as_slice() != want || n.ref_octets().deref_octets().to_vec().as_slice() != want {
+        bad("to_cow-or-deref_octets");
+    }
+    if n.composed_cmp(&flat) != std::cmp::Ordering::Equal || n.lowercase_composed_cmp(&canon) != std::cmp::Ordering::Equal || n.canonical_cmp(&flat) != std::cmp::Ordering::Equal || n.partial_cmp(&flat) != Some(std::cmp::Ordering::Equal) {
+        bad("orders-vs-flat-copy");
+    }
+    let (mut h1, mut h2) = (std::collections::hash_map::DefaultHasher::new(), std::collections::hash_map::DefaultHasher::new());
+    n.hash(&mut h1);
+    flat.hash(&mut h2);
+    if h1.finish() != h2.finish() {
+        bad("hash-differs-from-equal-flat-name");
+    }
+    let want_rrsig = fwd.len() as u8 - 1 - (fwd[0].as_slice() == b"*") as u8;
+    if n.rrsig_label_count() != want_rrsig {
+        bad("rrsig_label_count");
+    }
+    let _ = format!("{} {:?}", n.fmt_with_dot(), n);
 }
 
 fn script(msg: &[u8], t: &mut T) {
@@ -849,6 +1000,83 @@ fn main() {
             }
         }
     });
+    // --- pointer-chain family: every topology of up to three chained compression
+    // pointers, each either bare or behind a label, each pointing at the start of the
+    // previous name or at the pointer cell inside it; the final name sits at every kind
+    // of name position (owner, CNAME/NS/PTR/MX/SOA/SRV/RP/NSEC/RRSIG RDATA)
+    {
+        let ptr = |t: usize| vec![0xC0 | ((t >> 8) as u8 & 0x3F), t as u8];
+        let rec = |owner: &[u8], rt: u16, rd: &[u8]| {
+            let mut b = owner.to_vec();
+            b.extend_from_slice(&rt.to_be_bytes());
+            b.extend_from_slice(&[0, 1, 0, 0, 0, 60]);
+            b.extend_from_slice(&(rd.len() as u16).to_be_bytes());
+            b.extend_from_slice(rd);
+            b
+        };
+        // a cell = (bytes of the name, offset of its pointer part inside the bytes if any)
+        let shapes = |targets: &[usize], label: u8| -> Vec<Vec<u8>> {
+            let mut v = Vec::new();
+            for &t in targets {
+                v.push(ptr(t));
+                let mut l = vec![1, label];
+                l.extend(ptr(t));
+                v.push(l);
+                let mut l2 = vec![1, label, 1, label];
+                l2.extend(ptr(t));
+                v.push(l2);
+            }
+            v
+        };
+        let mut msgs: Vec<Vec<u8>> = Vec::new();
+        let base: Vec<u8> = vec![1, b'a', 1, b'b', 0]; // a.b. at 12, b. at 14
+        let p0 = 12usize;
+        for n1 in shapes(&[p0, p0 + 2], b'x') {
+            let r0 = rec(&base, 1, &[1, 2, 3, 4]);
+            let p1 = 12 + r0.len();
+            let r1 = rec(&n1, 1, &[1, 2, 3, 4]);
+            // targets inside n1: its start, and its pointer cell (if behind labels)
+            let mut t1 = vec![p1];
+            if n1.len() > 2 {
+                t1.push(p1 + n1.len() - 2);
+            }
+            for n2 in shapes(&t1, b'y') {
+                let p2 = p1 + r1.len();
+                let r2 = rec(&n2, 1, &[1, 2, 3, 4]);
+                let mut t2 = vec![p2];
+                if n2.len() > 2 {
+                    t2.push(p2 + n2.len() - 2);
+                }
+                let p3 = p2 + r2.len();
+                let _ = p3;
+                for n3 in shapes(&t2, b'z') {
+                    let mut finals: Vec<Vec<u8>> = vec![rec(&n3, 1, &[1, 2, 3, 4])];
+                    for rt in [2u16, 5, 12, 39] {
+                        finals.push(rec(&[1, b'o', 0], rt, &n3));
+                    }
+                    let cat = |parts: &[&[u8]]| parts.iter().flat_map(|p| p.iter().cloned()).collect::<Vec<u8>>();
+                    finals.push(rec(&[1, b'o', 0], 15, &cat(&[&[0, 5], &n3])));
+                    finals.push(rec(&[1, b'o', 0], 6, &cat(&[&n3, &[1, b'r', 0], &[0; 20]])));
+                    finals.push(rec(&[1, b'o', 0], 6, &cat(&[&[1, b'm', 0], &n3, &[0; 20]])));
+                    finals.push(rec(&[1, b'o', 0], 33, &cat(&[&[0, 1, 0, 2, 0, 3], &n3])));
+                    finals.push(rec(&[1, b'o', 0], 17, &cat(&[&n3, &[0]])));
+                    finals.push(rec(&[1, b'o', 0], 17, &cat(&[&[0], &n3])));
+                    finals.push(rec(&[1, b'o', 0], 47, &cat(&[&n3, &[0, 1, 0x40]])));
+                    finals.push(rec(&[1, b'o', 0], 46, &cat(&[&[0, 1, 13, 2, 0, 0, 0, 60, 0, 0, 0, 2, 0, 0, 0, 1, 0, 7], &n3, &[9, 9]])));
+                    for f in finals {
+                        let mut m = header(0x8400, [0, 4, 0, 0]);
+                        m.extend_from_slice(&r0);
+                        m.extend_from_slice(&r1);
+                        m.extend_from_slice(&r2);
+                        m.extend_from_slice(&f);
+                        msgs.push(m);
+                    }
+                }
+            }
+        }
+        stats.count_n("gen.pointer_chain_messages", msgs.len() as u64);
+        msgs.par_iter().for_each(|m| run_case(&ctx, &stats, &wd, m, "pointer-chains"));
+    }
     // --- raw tier: every byte string of length n over 9 symbols after each header
     let raw: Vec<u8> = vec![0x00, 0x01, 0x3F, 0x40, 0x80, 0xC0, 0x0C, 0xFF, b'a'];
     let rawlen = if quick { 5 } else { 7 };
@@ -883,7 +1111,7 @@ fn main() {
     let cov = json!({
         "evaluations": stats.evals(),
         "distinct_nontrivial": stats.nontrivial.load(std::sync::atomic::Ordering::Relaxed).min(stats.distinct_count()),
-        "rule": "messages = header variants x items from per-field menus (names incl. pointers to every landmark, ~35 record types x RDATA variants incl. every internal length field short/long, rdlen exact/-1/+1/0/0xFFFF) for 1, 2 and 3 items; every truncation of short one-item messages; every raw body over 9 symbols to the raw length. Each case runs the full read-side script twice. non-trivial = typed RDATA or OPT option parsing succeeded at least once or a compressed name was returned; distinct = distinct message octets (hash set) among those",
+        "rule": "messages = header variants x items from per-field menus (names incl. pointers to every landmark, ~35 record types x RDATA variants incl. every internal length field short/long, rdlen exact/-1/+1/0/0xFFFF) for 1, 2 and 3 items; the pointer-chain family (every topology of up to three chained pointers, bare or behind one or two labels, aimed at the start of the previous name or at its pointer cell, ending at every kind of name position); every truncation of short one-item messages; every raw body over 9 symbols to the raw length. Each case runs the full read-side script twice. non-trivial = typed RDATA or OPT option parsing succeeded at least once or a compressed name was returned; distinct = distinct message octets (hash set) among those",
         "distinct_transcript_shapes_and_messages": stats.distinct_count(),
         "exhaustive": true,
         "raw_len": rawlen,
